@@ -207,6 +207,39 @@ def run(ctx):
               trivial=True)
 
     # ---- V6 (C09 R09c): argument lists are not shared between nodes
+    # ---- V8: a tree object has one place in the tree
+    ctx.rule('V8', 'objects of the tree (nodes, node lists, ParsedArguments) are created where they are attached: no module-level '
+                   'instance of one of these classes is returned or attached by parser code, so no object is reachable from two '
+                   'parents (a shared object would be visited once per parent)', 0)
+    tree_classes = set(kind_of) | {'ParsedArguments', 'LatexNodeList', 'ParsedMacroArgs', 'ParsedArgumentsInfo'}
+    n_shared = 0
+    for mod in sorted(repo.modules.values(), key=lambda m_: m_.name):
+        if mod.name.endswith('__main__'):
+            continue
+        singles = {}
+        for st_ in mod.tree.body:
+            if isinstance(st_, ast.Assign) and len(st_.targets) == 1 and isinstance(st_.targets[0], ast.Name) and \
+                    isinstance(st_.value, ast.Call) and call_name(st_.value) in tree_classes:
+                singles[st_.targets[0].id] = st_
+        if not singles:
+            continue
+        for q_, f_ in sorted(mod.functions.items()):
+            bound = {a_.arg for a_ in f_.args.args} | {t_.id for x_ in iter_own(f_) if isinstance(x_, ast.Assign)
+                                                      for t_ in x_.targets if isinstance(t_, ast.Name)}
+            for n_ in iter_own(f_):
+                if isinstance(n_, ast.Name) and isinstance(n_.ctx, ast.Load) and n_.id in singles and n_.id not in bound:
+                    par_ = getattr(n_, '_parent', None)
+                    if isinstance(par_, ast.Compare):
+                        continue        # identity / equality tests do not attach it
+                    n_shared += 1
+                    ctx.refuted('V8', mod, n_, '%s uses the module-level %s object %s (created once at line %d) as part of what it '
+                                'builds or returns: the same object ends up under several parents of one tree (every macro read '
+                                'as a single-token argument shares it), and a visitor started on the tree processes it once per '
+                                'parent instead of exactly once' % (q_, call_name(singles[n_.id].value), n_.id, singles[n_.id].lineno),
+                                construct='%s: shared %s' % (q_, n_.id))
+    ctx.holds('V8', m, None, 'no module-level instance of a tree class is handed out by a function', construct='shared tree objects',
+              trivial=True)
+
     ctx.rule('V6', 'no mutable default argument value is changed in place or stored: the argument list of one node never '
                    'accumulates the nodes of another (a visitor would see nodes of other documents) (C09 R09c)', 4)
     from . import c09 as _c09, c05 as _c05
@@ -231,7 +264,8 @@ def run(ctx):
         bad_ = None
         for cs in [c for c in hcs if c.kind == 'return']:
             desc = [t_ for t_ in cs.env.get('#trace', ()) if isinstance(t_[0], ast.Call) and any(
-                isinstance(x_, ast.Name) and x_.id in ch_ for a_ in list(t_[0].args) + [k_.value for k_ in t_[0].keywords]
+                isinstance(x_, ast.Name) and x_.id in ch_
+                for a_ in list((t_[1] or t_[0]).args) + [k_.value for k_ in (t_[1] or t_[0]).keywords]
                 for x_ in ast.walk(a_))]
             if not desc and bad_ is None:
                 bad_ = cs
@@ -370,6 +404,18 @@ def _check_process(ctx, m, fn, q, kind, fields, vname, vis):
     if len(vcalls) != 1:
         return
     vc = vcalls[0]
+    # what the callback receives is the object that was dispatched, not something the name was re-bound to
+    try:
+        vcs = symex.Walker(is_sink=lambda c_: c_ is vc).run(fn)
+    except symex.TooManyPaths:
+        vcs = []
+    rebound = [cs for cs in vcs if cs.sub.args and unparse(cs.sub.args[0]) != p]
+    if vcs:
+        ctx.decide('V2', not rebound, m, vc, 'self.%s receives the dispatched object itself' % vname,
+                   '%s hands %s to self.%s, not the object it was called for (`%s` was re-bound before the call): the callback '
+                   'sees a different object (a bare Python list instead of the LatexNodeList of the tree) than the one the '
+                   'traversal reached' % (label, short(rebound[0].sub.args[0], 40) if rebound else '', vname, p),
+                   construct=label + ': visited object')
     # every descend result must reach the visit call under the documented keyword, and
     # the visit call must come after all descend calls in evaluation order
     local_src = {}
